@@ -14,6 +14,10 @@ CLAIMED = {
          "Theorems: every IEEE-vouched assignment is published with exactly that value (10 kinds), values are distinct per kind, and for EVERY integer the model lookup returns the enumerator's identifier or the unknown-tag string. The tables are regenerated from the headers and the switch (clang AST + compiled probe) on every run, so the kernel re-checks the theorems against the current source; the compiled function is compared with the model on -1024..1024 + boundaries (quick) / all 2^32 integers (thorough).",
          "Trusted: Lean kernel; gen.py + gcc/clang as evaluators of enumerators and case labels (cross-checked against compiled behaviour); my transcription of the IEEE tables (Spec/Ieee.lean); uniqueness of enumerator names is enforced by the C compiler.",
          "DESIGN.md section 4, C19"),
+ "C20": ("Lean 4 proof of monotonicity of the regenerated epoch expression (omega) + wrapped-clock correspondence",
+         "Theorems: for ALL pairs of clock readings t1 <= t2 (nsec < 10^9) the model's epoch is non-decreasing, the value is total nanoseconds divided by one fixed unit, and no signed 64-bit overflow occurs for sec < 2^43. The model evaluates the return expression of libwifi_get_epoch as extracted from the clang AST on every run; the side condition ((10^9-1)/B <= A for sec*A + nsec/B) is re-decided by the kernel. The compiled function and the timestamps embedded in beacons, probe responses and timing advertisements are compared with the model under a link-time replaced clock on a grid of every second boundary plus random readings.",
+         "Trusted: Lean kernel; gen.py's AST-to-EExpr translation (validated by the correspondence run); clock_gettime semantics (tv_nsec < 10^9); tv_sec >= 2^43 is outside the theorem.",
+         "DESIGN.md section 4, C20"),
 }
 
 PENDING_REASON = "not claimed in this revision: model/theorems for this property are not built yet (see DESIGN.md section 9 for the order of work); it is applicable and will be claimed once its check exists"
